@@ -879,8 +879,7 @@ func boolToInt(b bool) int {
 // gomaxprocs: race workers run on one P so that library-internal per-P state (sync.Pool) is as
 // deterministic as the runtime allows; the simulator never relies on real parallelism.
 func gomaxprocs(m *propMeta) string {
-	if m.Race {
-		return "1"
-	}
-	return "2"
+	// one P for every worker: goroutine-to-P migration would otherwise change which allocation cache
+	// (and hence which addresses) a task uses - address reuse after a collection must replay
+	return "1"
 }
